@@ -127,6 +127,47 @@ let meta (w : string array) =
   done;
   print_endline (String.concat " | " (List.rev !out))
 
+(* SYS <n> ev ev ...   the n-walker system of SharedModel.sys_step
+     ev:  d,i,it,pay | v,i,c | sv,i,0/1 | w,i,S | wb,i | wa,i,S | u,i,S,newname | s,i | r,i | q,i
+     q,i prints, for every peer p of walker i:  M ok=<sys_ok so far> name,sync,has,pos,S cont=..  (or none), peers separated by " ; " *)
+let sysm (w : string array) =
+  let n = int_of_string w.(1) in
+  let st = ref (sys_init (nat_of_int n)) in
+  let evs = ref [] in
+  let out = ref [] in
+  let zi s = z_of_int (int_of_string s) and ni s = nat_of_int (int_of_string s) in
+  let step e = evs := e :: !evs; st := sys_step !st e in
+  for k = 2 to Array.length w - 1 do
+    match split ',' w.(k) with
+    | [ "d"; i; it; pay ] -> step (SDeposit (ni i, { hit = zi it; hpay = zi pay }))
+    | [ "v"; i; c ] -> step (SVis (ni i, zi c))
+    | [ "sv"; i; b ] -> step (SSVis (ni i, b = "1"))
+    | [ "w"; i; s ] -> step (SWState (ni i, zi s))
+    | [ "wb"; i ] -> step (SWStateB (ni i))
+    | [ "wa"; i; s ] -> step (SWStateA (ni i, zi s))
+    | [ "u"; i; s; nn ] -> step (SSetup (ni i, zi s, nn = "1"))
+    | [ "s"; i ] -> step (SShare (ni i))
+    | [ "r"; i ] -> step (SRestart (ni i))
+    | [ "q"; i ] ->
+      let ok = sys_ok (nat_of_int n) (List.rev !evs) in
+      let ii = int_of_string i in
+      let parts = List.filter_map (fun p ->
+          if p = ii then None else begin
+            let (wr, om) = pair_of !st (nat_of_int ii) (nat_of_int p) in
+            Some (Printf.sprintf "P %d ok=%d %s D=%s" p (if ok then 1 else 0)
+                    (match om with
+                     | None -> "none"
+                     | Some m -> Printf.sprintf "%s,%d,%d,%d,%d cont=%s"
+                                   (match m.m_name with None -> "-" | Some z -> string_of_int (int_of_z z))
+                                   (if m.m_sync then 1 else 0) (if m.m_has then 1 else 0) (int_of_z m.m_pos) (int_of_z m.m_S)
+                                   (hills m.m_cont))
+                    (hills wr.w_D))
+          end) (List.init n (fun p -> p)) in
+      out := String.concat " ; " parts :: !out
+    | _ -> out := ("? " ^ w.(k)) :: !out
+  done;
+  print_endline (String.concat " | " (List.rev !out))
+
 (* CZAR <n> <nslots> c,c,..;c,c,..(one list per walker) f,f,..;f,f,..  -> the gathered count and sum grids *)
 let czar (w : string array) =
   let ns = int_of_string w.(2) in
@@ -154,6 +195,7 @@ let () =
         (match w.(0) with
          | "ABF" -> abf w
          | "META" -> meta w
+         | "SYS" -> sysm w
          | "CZAR" -> czar w
          | "OPES" -> opes w
          | _ -> print_endline "?")
